@@ -31,6 +31,7 @@ func runC12(cases string, res *Result) {
 	c12NamesThatCollide(res)
 	c12DefaultsAreExpressions(res)
 	c12AfterAFailedImport(res)
+	c12MacrosReachedFromIncludes(res)
 	firstKnown := map[string]*Finding{}
 	knownSize := map[string]int{}
 	readCases(cases, func(c Case) {
